@@ -78,9 +78,10 @@ func buildSched(dir string) (bin string, points int, err error) {
 }
 
 func runC19(r *ev.Run) {
-	r.Rule = "sequential: every column list of length <=3 over {*, each column, rowid, an unknown name} on T1 (rowid alias, short rows, overflow) and T2 (WITHOUT ROWID) through database/sql vs the native Select; non-SELECT / unknown table / unknown column errors; a fault at every page read k of a query must surface through Next or Close, never as a short result; close after every k rows and cancel after every k rows: goroutine count returns to the baseline and /proc/locks shows the lock gone. interleavings: driver.go instrumented with a scheduling point before every statement (and before every deferred call), run inside a testing/synctest bubble under a scheduler that resumes one goroutine at a time (enabled = parked at a scheduling point; blocked in a real channel operation or WaitGroup.Wait = disabled); participants: consumer (Query, Next x j, Close), canceller, the producer goroutine; scenarios: close after every j, drain, cancel racing, fault at every page read; every schedule with <=2 preemptions (3 thorough); oracle per schedule: rows are a prefix of the native rows, a fault never turns into io.EOF, no deadlock, no goroutine left, after Close returns the producer neither holds the lock nor reads pages. non-trivial = schedules with at least one preemption / sequential cases that stop early or hit a fault"
+	r.Rule = "sequential: every column list of length <=3 over {*, each column, rowid, an unknown name} on T1 (rowid alias, short rows, overflow) and T2 (WITHOUT ROWID) through database/sql vs the native Select; non-SELECT / unknown table / unknown column errors; a fault at every page read k of a query must surface through Next or Close, never as a short result; pool histories: every sequence of <=5 (6 thorough) database/sql operations on one pool over {open a result set on t1 / t2 (at most two open at once), read one row from open set i, drain+close set i, close set i, four kinds of failing query, Exec, Prepare+Close}: every result set delivers exactly the native rows (a prefix when closed early), failing statements fail; close after every k rows and cancel after every k rows: a 2 minute hang detector around Next/Close, goroutine count returns to the baseline and /proc/locks shows the lock gone. interleavings: driver.go instrumented with a scheduling point before every statement (and before every deferred call), run inside a testing/synctest bubble under a scheduler that resumes one goroutine at a time (enabled = parked at a scheduling point; blocked in a real channel operation or WaitGroup.Wait = disabled); participants: consumer (Query, Next x j, Close), canceller, the producer goroutine; scenarios: close after every j, drain, cancel racing, fault at every page read; every schedule with <=2 preemptions (3 thorough); oracle per schedule: rows are a prefix of the native rows, a fault never turns into io.EOF, no deadlock, no goroutine left, after Close returns the producer neither holds the lock nor reads pages. non-trivial = schedules with at least one preemption / sequential cases that stop early or hit a fault"
 	c19Sequential(r)
 	zooRun(r, "C19")
+	poolHistories(r, "C19")
 	c19Cleanup(r)
 	// ---- interleavings
 	dir := ev.TmpDir("c19")
@@ -388,7 +389,12 @@ func c19Cleanup(r *ev.Run) {
 		r.Harness("sql.Open: %v", err)
 		return
 	}
-	defer db.Close()
+	hung := false
+	defer func() {
+		if !hung { // a pool with a blocked connection never closes
+			db.Close()
+		}
+	}()
 	// warm up database/sql's own goroutines
 	if rows, err := db.Query("SELECT id FROM t"); err == nil {
 		for rows.Next() {
@@ -421,24 +427,31 @@ func c19Cleanup(r *ev.Run) {
 				conn.Close()
 				continue
 			}
-			for i := 0; i < k && rows.Next(); i++ {
-			}
-			switch mode {
-			case "close":
-				rows.Close()
-			case "cancel":
+			art := map[string]interface{}{"mode": mode, "rows_read": k}
+			// hang detector: the whole sequence takes well under a millisecond
+			if !ev.Within(2*time.Minute, func() {
+				for i := 0; i < k && rows.Next(); i++ {
+				}
+				switch mode {
+				case "close":
+					rows.Close()
+				case "cancel":
+					cancel()
+				case "cancel-then-close":
+					cancel()
+					rows.Close()
+				}
 				cancel()
-			case "cancel-then-close":
-				cancel()
-				rows.Close()
+				rows.Close() // database/sql closes the driver rows on cancel as well; make it explicit so the wait below is about the driver
+				conn.Close()
+			}) {
+				r.Violation("C19:clean:close-hangs", fmt.Sprintf("%s after %d rows: Next/Close/Conn.Close has not returned after 2 minutes", mode, k), art)
+				hung = true
+				return
 			}
-			cancel()
-			rows.Close() // database/sql closes the driver rows on cancel as well; make it explicit so the wait below is about the driver
-			conn.Close()
 			r.Eval(1)
 			r.Trans(2)
 			r.NontrivialN(1)
-			art := map[string]interface{}{"mode": mode, "rows_read": k}
 			n, ok := settle(base)
 			if !ok {
 				r.Violation("C19:clean:goroutine-leak", fmt.Sprintf("%s after %d rows: %d goroutines, baseline %d (waited 30 s)", mode, k, n, base), art)
